@@ -1232,6 +1232,7 @@ Proof.
     unfold ep_set_factors in Hs. destruct (admin c); [|discriminate].
     destruct ((0 <=? fa_max f) && (0 <=? fa_ce f) && (0 <=? fa_cf f)); [|discriminate].
     destruct ((0 <? fa_mine f) && (0 <? fa_minf f)); [|discriminate].
+    destruct ((0 <? fa_ce f) || (0 <? fa_cf f)); [|discriminate].
     apply bind_ok in Hs. destruct Hs as (cw & Hcw & Hs). destruct (current_week_b _ _ Hcw) as (-> & _).
     apply bind_ok in Hs. destruct Hs as (c' & Hu & Hs). inversion Hs; subst; clear Hs.
     split; [exact Htime|]. change (bcur_week (with_hw s (set_cfg (b_h s) (Some c')) (b_w s))) with (bcur_week s). simpl b_h; simpl b_w.
@@ -1489,6 +1490,7 @@ Proof.
   - unfold ep_set_factors in Hs. destruct (admin c); [|discriminate].
     destruct ((0 <=? fa_max f) && (0 <=? fa_ce f) && (0 <=? fa_cf f)); [|discriminate].
     destruct ((0 <? fa_mine f) && (0 <? fa_minf f)); [|discriminate].
+    destruct ((0 <? fa_ce f) || (0 <? fa_cf f)); [|discriminate].
     apply bind_ok in Hs. destruct Hs as (cw & Hcw & Hs).
     apply bind_ok in Hs. destruct Hs as (c' & Hu & Hs). inversion Hs; subst; clear Hs.
     apply (Hsame _ eq_refl eq_refl eq_refl). intros; simpl; lia.
@@ -1840,6 +1842,7 @@ Proof.
   - unfold ep_set_factors in Hs. destruct (admin c); [|discriminate].
     destruct ((0 <=? fa_max f) && (0 <=? fa_ce f) && (0 <=? fa_cf f)); [|discriminate].
     destruct ((0 <? fa_mine f) && (0 <? fa_minf f)); [|discriminate].
+    destruct ((0 <? fa_ce f) || (0 <? fa_cf f)); [|discriminate].
     apply bind_ok in Hs. destruct Hs as (cw & Hcw & Hs).
     apply bind_ok in Hs. destruct Hs as (c' & Hu & Hs). inversion Hs; subst; clear Hs. simpl.
     repeat (split; [reflexivity || apply rw_weak_refl|]). right. repeat split.
@@ -2145,6 +2148,7 @@ Proof.
   - unfold ep_set_factors in Hs. destruct (admin c); [|discriminate].
     destruct ((0 <=? fa_max f) && (0 <=? fa_ce f) && (0 <=? fa_cf f)); [|discriminate].
     destruct ((0 <? fa_mine f) && (0 <? fa_minf f)); [|discriminate].
+    destruct ((0 <? fa_ce f) || (0 <? fa_cf f)); [|discriminate].
     apply bind_ok in Hs. destruct Hs as (cw & Hcw & Hs).
     apply bind_ok in Hs. destruct Hs as (c' & Hu & Hs). inversion Hs; subst; clear Hs. simpl. split; [lia | reflexivity].
   - destruct (collect_char _ _ _ _ Hs) as (_ & _ & _ & _ & _ & _ & _ & _ & _ & _ & _ & -> & _). split; [lia | reflexivity].
@@ -2176,6 +2180,7 @@ Proof.
     + unfold ep_set_factors in Hs. destruct (admin c); [|discriminate].
       destruct ((0 <=? fa_max f) && (0 <=? fa_ce f) && (0 <=? fa_cf f)); [|discriminate].
       destruct ((0 <? fa_mine f) && (0 <? fa_minf f)); [|discriminate].
+      destruct ((0 <? fa_ce f) || (0 <? fa_cf f)); [|discriminate].
       apply bind_ok in Hs. destruct Hs as (cw & Hcw & Hs).
       apply bind_ok in Hs. destruct Hs as (c' & Hu & Hs). inversion Hs; subst; simpl.
       split; [reflexivity|]. left. split; [reflexivity | discriminate].
@@ -2284,17 +2289,20 @@ Qed.
 Lemma set_factors_guard s g c f :
   BInv s g ->
   ((exists s' out, ep_set_factors s c f = Ok (s', out)) <->
-   (c = ADMIN /\ 0 <= fa_max f /\ 0 <= fa_ce f /\ 0 <= fa_cf f /\ 0 < fa_mine f /\ 0 < fa_minf f)).
+   (c = ADMIN /\ 0 <= fa_max f /\ 0 <= fa_ce f /\ 0 <= fa_cf f /\ 0 < fa_mine f /\ 0 < fa_minf f /\
+    (0 < fa_ce f \/ 0 < fa_cf f))).
 Proof.
   intros (Htime & _ & _ & HC & _). unfold ep_set_factors, admin. split.
   - intros (s' & out & Hs). destruct (c =? ADMIN) eqn:Ec; [|discriminate]. apply Z.eqb_eq in Ec.
     destruct ((0 <=? fa_max f) && (0 <=? fa_ce f) && (0 <=? fa_cf f)) eqn:E1; [|discriminate].
     destruct ((0 <? fa_mine f) && (0 <? fa_minf f)) eqn:E2; [|discriminate].
-    rewrite !andb_true_iff, !Z.leb_le in E1. rewrite andb_true_iff, !Z.ltb_lt in E2. tauto.
-  - intros (-> & H1 & H2 & H3 & H4 & H5). rewrite Z.eqb_refl.
+    destruct ((0 <? fa_ce f) || (0 <? fa_cf f)) eqn:E3; [|discriminate].
+    rewrite !andb_true_iff, !Z.leb_le in E1. rewrite andb_true_iff, !Z.ltb_lt in E2. rewrite orb_true_iff, !Z.ltb_lt in E3. tauto.
+  - intros (-> & H1 & H2 & H3 & H4 & H5 & H6). rewrite Z.eqb_refl.
     assert (E1 : (0 <=? fa_max f) && (0 <=? fa_ce f) && (0 <=? fa_cf f) = true) by (rewrite !andb_true_iff, !Z.leb_le; tauto).
     assert (E2 : (0 <? fa_mine f) && (0 <? fa_minf f) = true) by (rewrite andb_true_iff, !Z.ltb_lt; tauto).
-    rewrite E1, E2. unfold current_week, week_for_epoch.
+    assert (E3 : (0 <? fa_ce f) || (0 <? fa_cf f) = true) by (rewrite orb_true_iff, !Z.ltb_lt; tauto).
+    rewrite E1, E2, E3. unfold current_week, week_for_epoch.
     assert (Ele : (b_first s <=? b_epoch s) = true) by (apply Z.leb_le; exact Htime). rewrite Ele. simpl bind.
     fold (bcur_week s). unfold CI in HC. destruct (bh_cfg (b_h s)) as [cfg|]; [|eexists; eexists; reflexivity].
     destruct (g_fac g) as [[f0 log]|]; [|contradiction]. destruct HC as (_ & Hle).
@@ -2304,3 +2312,111 @@ Qed.
 
 Lemma set_factors_perm s c f : c <> ADMIN -> ep_set_factors s c f = Err EPerm.
 Proof. intros Hc. unfold ep_set_factors, admin. destruct (c =? ADMIN) eqn:E; [apply Z.eqb_eq in E; contradiction | reflexivity]. Qed.
+
+(** ------------------------------------------------------------------ the formula never divides by zero *)
+(** setBoostedYieldsFactors rejects cE = cF = 0, so every accepted setting — hence every entry of the register —
+    has cE + cF > 0 *)
+Definition fac_ok (f : factors) : Prop := 0 <= fa_ce f /\ 0 <= fa_cf f /\ 0 < fa_ce f + fa_cf f.
+Definition FOK (gf : option (factors * list (Z * factors))) : Prop :=
+  match gf with None => True | Some (f0, log) => fac_ok f0 /\ Forall (fun ev => fac_ok (snd ev)) log end.
+
+Lemma fac_at_ok log : forall f0 w, fac_ok f0 -> Forall (fun ev => fac_ok (snd ev)) log -> fac_ok (fac_at f0 log w).
+Proof.
+  unfold fac_at. induction log as [|[k f] t IH]; intros f0 w H0 Hall; simpl; [exact H0|].
+  inversion Hall; subst. apply IH; [|assumption]. destruct (k <=? w); assumption.
+Qed.
+
+Lemma set_factors_ok s c f s' out : ep_set_factors s c f = Ok (s', out) -> fac_ok f.
+Proof.
+  unfold ep_set_factors. destruct (admin c); [|discriminate].
+  destruct ((0 <=? fa_max f) && (0 <=? fa_ce f) && (0 <=? fa_cf f)) eqn:E1; [|discriminate].
+  destruct ((0 <? fa_mine f) && (0 <? fa_minf f)); [|discriminate].
+  destruct ((0 <? fa_ce f) || (0 <? fa_cf f)) eqn:E3; [|discriminate]. intros _.
+  rewrite !andb_true_iff, !Z.leb_le in E1. rewrite orb_true_iff, !Z.ltb_lt in E3. unfold fac_ok. lia.
+Qed.
+
+Lemma step_fok s op s' out gf cw : step s op = Ok (s', out) -> FOK gf -> FOK (fac_event op cw gf).
+Proof.
+  intros Hs Hg. destruct op; simpl; try exact Hg. simpl in Hs. pose proof (set_factors_ok _ _ _ _ _ Hs) as Hf.
+  destruct gf as [[f0 log]|]; simpl in *.
+  - destruct Hg as (G1 & G2). split; [exact G1|]. apply Forall_app. split; [exact G2 | constructor; [exact Hf | constructor]].
+  - split; [exact Hf | constructor].
+Qed.
+
+Lemma bgrun_fok ops : forall s g, FOK (g_fac g) -> FOK (g_fac (snd (bgrun (s, g) ops))).
+Proof.
+  unfold bgrun. induction ops as [|op t IH]; intros s g Hg; simpl; [exact Hg|].
+  unfold bgstep at 2. simpl. destruct (step s op) as [[s' out]|] eqn:Es; simpl; [|apply IH; exact Hg].
+  apply IH. simpl. apply (step_fok _ _ _ _ _ _ Es Hg).
+Qed.
+
+Lemma CInv_slots_ok c f0 log : CInv c f0 log -> FOK (Some (f0, log)) -> forall fa, In fa (c_slots c) -> fac_ok fa.
+Proof.
+  intros (Hlen & _ & Hsl) (H0 & Hall) fa Hin. pose proof nslots_pos as HN.
+  destruct (In_nth _ _ fac0 Hin) as (i & Hi & Hnth). rewrite Hlen in Hi.
+  assert (Hk : 0 <= NSLOTS - 1 - Z.of_nat i < NSLOTS) by lia.
+  specialize (Hsl _ Hk). unfold slot in Hsl.
+  replace (Z.to_nat (NSLOTS - 1 - (NSLOTS - 1 - Z.of_nat i))) with i in Hsl by lia.
+  rewrite <- Hnth, Hsl. apply fac_at_ok; assumption.
+Qed.
+
+(** what can make get_user_rewards_for_week fail once no eligible week has cE + cF = 0: an invalid week for the
+    register, a missing config at the freeze, a malformed stored total — or the guard [remaining -= reward];
+    never the division *)
+Lemma hook_err_cases pos cfg cw h s w e E err :
+  (forall fa, get_factors_for_week cfg w = Ok fa -> fa_ce fa + fa_cf fa <> 0) ->
+  boosted_hook pos cfg cw h s w e E = Err err ->
+  (exists e1, get_factors_for_week cfg w = Err e1) \/
+  (exists e1, b_collect_and_get cw h s w = Err e1) \/
+  (exists h1 s1 tot, b_collect_and_get cw h s w = Ok (h1, s1, tot) /\ (2 <= length tot)%nat) \/
+  (exists fa h1 s1 t R,
+     get_factors_for_week cfg w = Ok fa /\ b_collect_and_get cw h s w = Ok (h1, s1, [(t, R)]) /\ R <> 0 /\
+     0 < boosted_amount fa R pos (aget (bh_sup h) w) e E /\
+     aget (bh_rem h1) w < boosted_amount fa R pos (aget (bh_sup h) w) e E).
+Proof.
+  intros Hnz. unfold boosted_hook. set (F := aget (bh_sup h) w).
+  destruct ((E =? 0) || (F =? 0)); [discriminate|].
+  destruct (get_factors_for_week cfg w) as [fa|e1] eqn:Hfa; [|intros _; left; exists e1; reflexivity]. simpl bind.
+  destruct ((e <? fa_mine fa) || (pos <? fa_minf fa)); [discriminate|].
+  destruct (b_collect_and_get cw h s w) as [[[h1 s1] tot]|e1] eqn:Hc; [|intros _; right; left; exists e1; reflexivity]. simpl bind.
+  destruct tot as [|[t R] [|y l]]; [discriminate| |].
+  - destruct (R =? 0) eqn:ER; [discriminate|]. apply Z.eqb_neq in ER.
+    unfold div_chk. destruct (fa_ce fa + fa_cf fa =? 0) eqn:Ez; [apply Z.eqb_eq in Ez; exfalso; apply (Hnz fa eq_refl Ez)|]. simpl bind.
+    fold (boosted_amount fa R pos F e E).
+    destruct (0 <? boosted_amount fa R pos F e E) eqn:Ep; [|discriminate]. apply Z.ltb_lt in Ep.
+    unfold sub_chk. destruct (aget (bh_rem h1) w <? boosted_amount fa R pos F e E) eqn:Es; [|discriminate]. apply Z.ltb_lt in Es.
+    intros _. right. right. right. exists fa, h1, s1, t, R. repeat split; assumption.
+  - intros _. right. right. left. exists h1, s1, ((t, R) :: y :: l). split; [reflexivity | simpl; lia].
+Qed.
+
+Lemma reach_no_div0 epoch ops :
+  let s := fst (bgrun (init_b epoch, bg0) ops) in let cw := bcur_week s in
+  forall c, bh_cfg (b_h s) = Some c ->
+    (forall fa, In fa (c_slots c) -> fac_ok fa) /\
+    forall cfg, cfg_update c cw None = Ok cfg ->
+      (forall fa, In fa (c_slots cfg) -> fac_ok fa) /\
+      (forall w fa, get_factors_for_week cfg w = Ok fa ->
+         fac_ok fa /\ forall x, div_chk x (fa_ce fa + fa_cf fa) = Ok (x / (fa_ce fa + fa_cf fa))) /\
+      (forall pos h0 s0 w e E err, boosted_hook pos cfg cw h0 s0 w e E = Err err ->
+         (exists e1, get_factors_for_week cfg w = Err e1) \/
+         (exists e1, b_collect_and_get cw h0 s0 w = Err e1) \/
+         (exists h1 s1 tot, b_collect_and_get cw h0 s0 w = Ok (h1, s1, tot) /\ (2 <= length tot)%nat) \/
+         (exists fa h1 s1 t R,
+            get_factors_for_week cfg w = Ok fa /\ b_collect_and_get cw h0 s0 w = Ok (h1, s1, [(t, R)]) /\ R <> 0 /\
+            0 < boosted_amount fa R pos (aget (bh_sup h0) w) e E /\
+            aget (bh_rem h1) w < boosted_amount fa R pos (aget (bh_sup h0) w) e E)).
+Proof.
+  intros s cw c Hc. destruct (reach_inv epoch ops) as (_ & _ & _ & HC & _). fold s cw in HC.
+  pose proof (bgrun_fok ops (init_b epoch) bg0 I) as Hfok. unfold CI in HC. rewrite Hc in HC.
+  destruct (g_fac (snd (bgrun (init_b epoch, bg0) ops))) as [[f0 log]|]; [|contradiction].
+  destruct HC as (Hi & _). split; [apply (CInv_slots_ok _ _ _ Hi Hfok)|].
+  intros cfg Hu. destruct (cfg_update_inv _ _ _ _ _ _ Hi Hu) as (_ & _ & Hi').
+  assert (Hsl : forall fa, In fa (c_slots cfg) -> fac_ok fa) by apply (CInv_slots_ok _ _ _ Hi' Hfok).
+  assert (Hget : forall w fa, get_factors_for_week cfg w = Ok fa -> fac_ok fa).
+  { intros w fa Hg. destruct (get_factors_spec _ _ _ w Hi') as (_ & H2). destruct (H2 fa Hg) as (_ & ->).
+    destruct Hfok. apply fac_at_ok; assumption. }
+  split; [exact Hsl|]. split.
+  - intros w fa Hg. pose proof (Hget w fa Hg) as Hok. split; [exact Hok|]. intros x. unfold div_chk.
+    destruct (fa_ce fa + fa_cf fa =? 0) eqn:E; [apply Z.eqb_eq in E; destruct Hok as (_ & _ & Hp); lia | reflexivity].
+  - intros pos h0 s0 w e E err Hh. apply (hook_err_cases _ _ _ _ _ _ _ _ _ (fun fa Hg => ltac:(destruct (Hget w fa Hg) as (_ & _ & Hp); lia)) Hh).
+Qed.
